@@ -198,7 +198,7 @@ class SrtContext:
       else:
         # set default end time code
         LOGGER.warning("Set a default end value to paragraph (begin + 10s).")
-        self._paragraphs[-1].set_end(self._paragraphs[-1].get_begin().to_seconds() + 10.0)
+        self._paragraphs[-1].set_end(Fraction(self._paragraphs[-1].get_begin().to_milliseconds() + 10000, 1000))
 
   def __str__(self) -> str:
     return "\n".join(p.to_string(id + 1) for id, p in enumerate(self._paragraphs))
